@@ -268,6 +268,22 @@ pub fn blob_mutants(blob: &[u8], boundaries: &[usize], full_limit: usize, edge: 
             }
         }
     }
+    // the first byte of every field set to every value (format tags live there: point-encoding
+    // tags, version bytes); a sample of values when each mutant is expensive
+    for (bi, b) in bs.iter().enumerate() {
+        if *b >= n {
+            continue;
+        }
+        let values: Vec<u8> = if n <= full_limit { (0..=255u8).collect() } else { vec![0, 1, 2, 3, 4, 5, 6, 7, 0x80, 0xff] };
+        for v in values {
+            if v.count_ones() == (blob[*b] ^ v).count_ones() && (blob[*b] ^ v).count_ones() == 1 {
+                // single-bit neighbours are already in the flip catalogue
+            }
+            let mut x = blob.to_vec();
+            x[*b] = v;
+            push(mid("set-field-first-byte", bi, v as usize), x);
+        }
+    }
     // interior deletions: 1..3 bytes removed right after / right before every field boundary,
     // plus the whole run of zero bytes that follows a boundary (a stripped big-endian integer)
     for (bi, b) in bs.iter().enumerate() {
